@@ -198,7 +198,7 @@ class Oracles:
         pm = self.pm_of(op)  # type: ignore[attr-defined]
         ids = [self.resolve_tid(pm, ref) for ref in op.get("refs", [])]  # type: ignore[attr-defined]
         me = ctx.get("task")
-        if me is not None and me.pm is pm and me.tid in ids and not ctx.get("suspends_later"):
+        if me is not None and me.pm is pm and me.live and me.tid in ids and not ctx.get("suspends_later"):
             ids = [i for i in ids if i != me.tid]   # self-cancellation without a later suspension point: excluded (DESIGN 6)
         self.ops_seen.add("cancel")
         states = {tid: self.model_states(pm, tid) for tid in ids}
@@ -281,7 +281,7 @@ class Oracles:
         rm = pm.groups_live.get(name)
         if rm is not None and (rm.in_pull or rm.in_call):
             return  # re-entrant cancellation from the group's own iterator / func call: excluded by the statement
-        if rm is not None and ctx.get("task") is not None and ctx["task"].req is rm and not ctx.get("suspends_later"):
+        if rm is not None and ctx.get("task") is not None and ctx["task"].req is rm and ctx["task"].live and not ctx.get("suspends_later"):
             return  # would cancel the calling task itself with no later suspension point (DESIGN 6)
         self.ops_seen.add("cancel_group")
         if rm is not None:
